@@ -35,7 +35,7 @@ def run(tier, seed, replay=None):
     from splipy import state
     rng = random.Random(seed)
     tol = C.fr(state.knot_tolerance)
-    nobj = 140 if tier == 'quick' else 2500
+    nobj = 200 if tier == 'quick' else 2500
     cases = []
     dist = {'op': {}, 'pardim': {}, 'amount_total': {}, 'periodic_dirs': {}, 'errors': {}}
     if replay:
@@ -48,6 +48,9 @@ def run(tier, seed, replay=None):
                 for pd in [rng.choice([1, 1, 2, 2, 3]) for _ in range(nobj)]]
     for spec, forced in todo:
         pd = len(spec['bases'])
+        if not forced and rng.random() < 0.25:
+            # copies of a repeated knot that differ in the last bits (equal within the knot tolerance)
+            O.fuzz_knots(rng, spec)
         o = O.make_impl(spec)
         pre = O.snapshot(o)
         if forced:
@@ -76,6 +79,8 @@ def run(tier, seed, replay=None):
                     spec = O.gen_obj(rng, kinds=['open'], pmax={1: 5, 2: 4, 3: 3}[pd], pardim=pd)
                     if all(max([b['knots'].count(k) for k in b['knots'][b['order']:-b['order']]] or [0]) < b['order'] for b in spec['bases']):
                         break
+                if rng.random() < 0.25:
+                    O.fuzz_knots(rng, spec)
                 o = O.make_impl(spec)
                 pre = O.snapshot(o)
                 if pd >= 2 and rng.random() < 0.6:
